@@ -67,7 +67,7 @@ func init() {
 			}
 			out = append(out, seeded("C19", seed, n, func(i int, sd uint64) *k.Spec {
 				u := func(tag string, n int) int { return int(k.H(sd, tag, 0) % uint64(n)) }
-				s := &k.Spec{Params: P("kind", kinds[u("kind", len(kinds))], "launch", launches[u("launch", 2)], "mode", []string{"seq", "conc", "conc"}[u("mode", 3)], "ops", "random")}
+				s := &k.Spec{Seed: sd, Params: P("kind", kinds[u("kind", len(kinds))], "launch", launches[u("launch", 2)], "mode", []string{"seq", "conc", "conc"}[u("mode", 3)], "ops", "random")}
 				swarm(s, "client.go:Client.Start,client.go:Client.Client,client.go:Client.Kill,client.go:Client.reattach")
 				if s.DelayClass == "big" {
 					s.DelayClass = "mid"
